@@ -457,6 +457,38 @@ def qc_map(prog: Program) -> RuleResult:
     return r
 
 
+def qc_errors(prog: Program) -> RuleResult:
+    """The errors the property promises are built while the violation is being reported: whatever their constructors evaluate on the
+    quantifier must be defined for *every* quantifier (entity and set_of alike), or the construction itself raises something else."""
+    from ..callgraph import self_closure
+
+    r = RuleResult("QC-ERRORS", "building a quantification error cannot itself raise", floor=2)
+    base = prog.cls("failures.QuantificationNotSatisfiedError")
+    rq = prog.cls("symbolic.ResultQuantifier")
+    quantifiers = [c for c in prog.subclasses(rq.qual)]
+    for c in sorted(prog.subclasses(base.qual), key=lambda x: x.qual):
+        members = [m for n, m in c.methods.items() if n in ("__post_init__", "__init__", "__str__", "__repr__") or m.is_property]
+        for m in members:
+            bad = None
+            fs, _ = self_closure(prog, c.qual, m, True)
+            for g in fs:
+                for x in walk_local(g.node):
+                    # self.expression.<attr>: what does <attr> run on a quantifier?
+                    if isinstance(x, ast.Attribute) and isinstance(x.value, ast.Attribute) and isinstance(x.value.value, ast.Name) and x.value.value.id == g.params[0] and x.value.attr == "expression":
+                        for q in quantifiers:
+                            t = prog.lookup(q.qual, x.attr)
+                            if t is not None and (t.is_property or t.is_cached_property):
+                                gs, _ = self_closure(prog, q.qual, t, True)
+                                rs = [y for h in gs for y in walk_local(h.node) if isinstance(y, ast.Raise)]
+                                if rs:
+                                    bad = bad or (x, t, rs[0])
+            r.check(bad is None, f"{c.name}.{m.name}#defined-for-every-quantifier", site(m), src(bad[0]) if bad else "",
+                    "reads of the quantifier cannot raise",
+                    f"{c.name}.{m.name} evaluates {src(bad[0]) if bad else ''}, and {bad[1].short if bad else ''} can raise ({src(bad[2])[:60] if bad else ''}): for such a quantifier "
+                    f"(a set_of query has no single variable) building the promised error raises that exception instead")
+    return r
+
+
 def run(prog: Program, tier: str) -> List[RuleResult]:
     # thorough: every cell is witnessed by all integer models up to 8 instead of 4 (same cells: the ordering domain is finite)
-    return [qc_table(prog, 9 if tier == "thorough" else 4), qc_ctor(prog), qc_path(prog), qc_map(prog)]
+    return [qc_table(prog, 9 if tier == "thorough" else 4), qc_ctor(prog), qc_path(prog), qc_map(prog), qc_errors(prog)]
